@@ -121,8 +121,10 @@ public:
   {
     if (this != &other)
     {
+      // Take the source first: it may live inside the object released below.
+      shared_ptr tmp{std::move(other)};
       wrapper().~shared_ptr_wrapper();
-      other.wrapper().MoveTo(buffer_);
+      tmp.wrapper().MoveTo(buffer_);
     }
     return *this;
   }
@@ -137,8 +139,10 @@ public:
   {
     if (this != &other)
     {
+      // Copy the source first: it may live inside the object released below.
+      shared_ptr tmp{other};
       wrapper().~shared_ptr_wrapper();
-      other.wrapper().CopyTo(buffer_);
+      tmp.wrapper().MoveTo(buffer_);
     }
     return *this;
   }
